@@ -106,6 +106,11 @@ func (w *World) FieldsReadVia(fn *ssa.Function, root ssa.Value, typ string, dept
 // AllocFieldStores lists, for an Alloc of a struct in fn, the values stored into each of its fields
 // (composite literal initialisation and later assignments in the same function).
 func (w *World) AllocFieldStores(a *ssa.Alloc) map[string][]ssa.Value {
+	return w.ValueFieldStores(a)
+}
+
+// ValueFieldStores: the same for any pointer-to-struct value (an Alloc, or the result of a constructor call).
+func (w *World) ValueFieldStores(a ssa.Value) map[string][]ssa.Value {
 	out := map[string][]ssa.Value{}
 	refs := a.Referrers()
 	if refs == nil {
@@ -113,7 +118,7 @@ func (w *World) AllocFieldStores(a *ssa.Alloc) map[string][]ssa.Value {
 	}
 	for _, r := range *refs {
 		fa, ok := r.(*ssa.FieldAddr)
-		if !ok || fa.X != ssa.Value(a) {
+		if !ok || fa.X != a {
 			continue
 		}
 		name := fieldNameOf(a.Type(), fa.Field)
@@ -135,6 +140,35 @@ type CopySpec struct {
 	// Rebuilt: fields that may be left zero in the literal because the function rebuilds them afterwards;
 	// value = regexp of an instruction that must be present (the rebuild call)
 	Rebuilt map[string]string
+	// Only: when set, only these fields are obligations (a property that depends on part of the carried state)
+	Only []string
+}
+
+// freshConstructor: callee of c is a source function all of whose returns are one Alloc of the struct (a constructor
+// returning a fresh object); returns that Alloc.
+func freshConstructor(c *ssa.Call) *ssa.Alloc {
+	callee := c.Call.StaticCallee()
+	if callee == nil || len(callee.Blocks) == 0 {
+		return nil
+	}
+	var a *ssa.Alloc
+	for _, b := range callee.Blocks {
+		for _, in := range b.Instrs {
+			r, ok := in.(*ssa.Return)
+			if !ok {
+				continue
+			}
+			if len(r.Results) != 1 {
+				return nil
+			}
+			x, ok := r.Results[0].(*ssa.Alloc)
+			if !ok || (a != nil && a != x) {
+				return nil
+			}
+			a = x
+		}
+	}
+	return a
 }
 
 // CopyCoverage (COPY): every field of T is stored in the destination literal with a value derived from the
@@ -149,7 +183,10 @@ func CopyCoverage(w *World, id string, spec CopySpec) []Result {
 		return []Result{Anchor(id, "COPY", "type "+spec.Type)}
 	}
 	construct := "COPY:" + spec.Fn + ":" + spec.Type
-	var dest *ssa.Alloc
+	// the destination: the one T literal of the function, or — when the object is obtained from a constructor and then
+	// filled in — the one constructor result whose fields the function stores
+	var dest ssa.Value
+	var inCtor map[string][]ssa.Value
 	n := 0
 	for _, b := range fn.Blocks {
 		for _, in := range b.Instrs {
@@ -161,10 +198,51 @@ func CopyCoverage(w *World, id string, spec CopySpec) []Result {
 			}
 		}
 	}
+	if n == 0 {
+		for _, b := range fn.Blocks {
+			for _, in := range b.Instrs {
+				c, ok := in.(*ssa.Call)
+				if !ok || structName(c.Type()) != spec.Type {
+					continue
+				}
+				if _, isPtr := c.Type().Underlying().(*types.Pointer); !isPtr {
+					continue
+				}
+				a := freshConstructor(c)
+				if a == nil || len(w.ValueFieldStores(c)) == 0 {
+					continue
+				}
+				dest = c
+				inCtor = w.ValueFieldStores(a)
+				n++
+			}
+		}
+	}
 	if dest == nil || n != 1 {
 		return []Result{one(id, "COPY", construct, Violated, n, w.Pos(fn.Pos()), fmt.Sprintf("expected exactly one %s literal in %s, found %d (idiom not recognised)", spec.Type, spec.Fn, n))}
 	}
-	stores := w.AllocFieldStores(dest)
+	stores := w.ValueFieldStores(dest)
+	for f, vs := range inCtor {
+		if len(stores[f]) == 0 {
+			stores[f] = vs
+		}
+	}
+	if len(spec.Only) > 0 {
+		keep := map[string]bool{}
+		for _, f := range spec.Only {
+			keep[f] = true
+		}
+		var fs []string
+		for _, f := range fields {
+			if keep[f] {
+				fs = append(fs, f)
+			}
+		}
+		if len(fs) != len(spec.Only) {
+			return []Result{Anchor(id, "COPY", "fields "+strings.Join(spec.Only, ",")+" of "+spec.Type)}
+		}
+		fields = fs
+	}
 	var out []Result
 	var carried []string
 	for _, f := range fields {
@@ -186,19 +264,19 @@ func CopyCoverage(w *World, id string, spec CopySpec) []Result {
 			if len(w.Sites(fn, regexp.MustCompile(re), true)) > 0 {
 				continue
 			}
-			out = append(out, one(id, "COPY", construct+"."+f, Violated, 0, w.InstrPos(dest), fmt.Sprintf("%s: field %s is neither carried from the source nor rebuilt (expected `%s`)", spec.Fn, f, re)))
+			out = append(out, one(id, "COPY", construct+"."+f, Violated, 0, w.Pos(dest.Pos()), fmt.Sprintf("%s: field %s is neither carried from the source nor rebuilt (expected `%s`)", spec.Fn, f, re)))
 			continue
 		}
 		what := "is never set in the new " + spec.Type
 		if len(stores[f]) > 0 {
 			what = "is set to `" + clip(w.RenderD(stores[f][0], 5), 80) + "`, not to the source's value"
 		}
-		out = append(out, one(id, "COPY", construct+"."+f, Violated, 0, w.InstrPos(dest),
+		out = append(out, one(id, "COPY", construct+"."+f, Violated, 0, w.Pos(dest.Pos()),
 			fmt.Sprintf("%s: field %s.%s %s — state kept in it is lost by this copy/carry-over", spec.Fn, spec.Type, f, what)))
 	}
 	if len(out) == 0 {
 		sort.Strings(carried)
-		out = append(out, one(id, "COPY", construct, Discharged, len(fields), w.InstrPos(dest), fmt.Sprintf("%d fields, carried: %s", len(fields), strings.Join(carried, ","))))
+		out = append(out, one(id, "COPY", construct, Discharged, len(fields), w.Pos(dest.Pos()), fmt.Sprintf("%d fields, carried: %s", len(fields), strings.Join(carried, ","))))
 	}
 	return out
 }
